@@ -28,7 +28,9 @@ REQUIRED = ["op.scenario.remove_lanelet", "op.scenario.remove_lanelet-list", "op
             "op.cutout.list", "removed-lanelet-was-referenced-by-intersection", "removed-lanelet-had-shared-sign",
             "removed-sign-was-in-stop-line", "crossing-removed",
             "incoming-relation-between-survivors.successors_right", "incoming-relation-between-survivors.successors_left",
-            "cutout-shape.group", "cutout-shape.polygon", "cutout-after-deferred-add"]
+            "cutout-shape.group", "cutout-shape.polygon", "cutout-after-deferred-add",
+            "removal-after-cutout.other-network-rechecked.source", "removal-after-cutout.other-network-rechecked.cut-out",
+            "removal-after-cutout.via-network.remove_lanelet", "removal-after-cutout.via-scenario.remove_lanelet"]
 ASSUMPTIONS = ["'left_of' between incomings, first occurrences of signs and areas are not in the statement's list",
                "for cut-outs the statement does not fix which incoming elements survive; only their content is judged"]
 SHARDS = {"quick": 4, "thorough": 16}
@@ -120,6 +122,13 @@ def snap(net):
 
 
 REL = ["predecessor", "successor", "traffic_signs", "traffic_lights"]
+
+
+def _sk(d):
+    """snapshot with string keys only (for structure.diff)"""
+    if isinstance(d, dict):
+        return {str(k): _sk(v) for k, v in d.items()}
+    return d
 
 
 def dangling(s):
@@ -247,6 +256,7 @@ def run(ctx):
         sc = Scenario(0.1)
         sc.add_objects(copy.deepcopy(net0))
         hist = []
+        watched = []  # (network, snapshot, role): networks nothing is removed from any more -- they must stay as they are
         ctx.fingerprint(["net", sorted(snap(net0)["lanelets"]), i])
         if i < 2:
             s0 = snap(net0)
@@ -417,9 +427,82 @@ def run(ctx):
                                 continue
                         check_after(op, before, a, removed, set(before["signs"]) - ks, set(before["lights"]) - kl, (), wit,
                                     cutout=True)
-                    sc = Scenario(0.1)
-                    sc.add_objects(new)
+                    # a cut-out is a new network ("copy"): what happens to one of the two later does not concern the other.
+                    # The history goes on with the cut-out (or, every fourth time, with the source); the other one is
+                    # watched from now on.
+                    if (i + step) % 4 == 1 and op != "cutout.list" and new.lanelets:
+                        watched.append((new, snap(new), "cut-out"))
+                        ctx.feature("history-continues-on-source-after-cutout")
+                    else:
+                        watched.append((net, snap(net), "source"))
+                        sc = Scenario(0.1)
+                        sc.add_objects(new)
+                for wn, ws, role in watched:
+                    ctx.counter("watched-network-rechecked")
+                    dfs = S.diff(_sk(ws), _sk(snap(wn)), S.real_ok_bits)
+                    if dfs:
+                        ctx.violation("C10/later-operation-changed-the-other-network/%s%s" % (role, S.generalise(dfs[0][0])),
+                                      "%s of an earlier cut-out changed at %s: %s -> %s although the operation was "
+                                      "performed on the other network" % (role, dfs[0][0], dfs[0][1], dfs[0][2]), wit)
+                        watched = []
+                        break
             except Exception as e:  # noqa
                 import traceback
                 ctx.violation("C10/%s/raises-%s" % (op, type(e).__name__), traceback.format_exc()[-500:], wit)
                 break
+
+    # ------------------------------------------------------------------------ scripted: cut-out, then removal in one
+    # of the two networks; the other one keeps every relation (an incoming element that survives the cut-out completely
+    # is the interesting case: all its lanelets and successors are inside the new network)
+    from commonroad.scenario.intersection import Intersection, IntersectionIncomingElement
+    for i, rng in ctx.cases("cutout-then-removal", ctx.pick(48, 6000)):
+        net = gen_network(rng)
+        lids = sorted(l.lanelet_id for l in net.lanelets)
+        a, b, c = rng.sample(lids, 3)
+        net.add_intersection(Intersection(900, [IntersectionIncomingElement(901, {a}, {b}, {c}, set()),
+                                                IntersectionIncomingElement(902, {b}, set(), {a}, {c})], {c}))
+        how = ("none", "shape-around-everything", "types-nobody-has")[i % 3]
+        shape = Rectangle(4000.0, 4000.0, np.array([0.0, 0.0]), 0.0) if how == "shape-around-everything" else None
+        types = {LaneletType.INTERSTATE} if how == "types-nobody-has" else None
+        for la in net.lanelets:
+            la.lanelet_type = la.lanelet_type - {LaneletType.INTERSTATE} or {LaneletType.URBAN}
+        src_before = snap(net)
+        new = LaneletNetwork.create_from_lanelet_network(net, shape, types)
+        ctx.evaluation()
+        ctx.fingerprint(["ctr", how, i, sorted(src_before["lanelets"])])
+        wit = {"history": ["cutout." + how], "intersections": src_before["intersections"], "case": i}
+        if set(snap(new)["lanelets"]) != set(lids):
+            ctx.violation("C10/cutout.%s/lanelet-not-selected-but-missing" % how, "kept %s of %s" % (
+                sorted(snap(new)["lanelets"]), lids), wit)
+            continue
+        dfs = S.diff(_sk(src_before), _sk(snap(net)), S.real_ok_bits)
+        if dfs:
+            ctx.violation("C10/cutout/changed-the-source-network" + S.generalise(dfs[0][0]), "%s: %s -> %s" % dfs[0], wit)
+            continue
+        on_cut = (i // 3) % 2 == 0
+        act, other, role = (new, net, "source") if on_cut else (net, new, "cut-out")
+        other_before = snap(other)
+        victim = (a, b, c)[(i // 6) % 3]
+        via = ("network.remove_lanelet", "scenario.remove_lanelet")[(i // 18) % 2]
+        wit["history"].append("%s(%d) on the %s" % (via, victim, "cut-out" if on_cut else "source"))
+        try:
+            if via == "network.remove_lanelet":
+                act.remove_lanelet(victim)
+                after_act = snap(act)
+            else:
+                sc2 = Scenario(0.1)
+                sc2.add_objects(act)
+                sc2.remove_lanelet(sc2.lanelet_network.find_lanelet_by_id(victim))
+                after_act = snap(sc2.lanelet_network)
+        except Exception as e:  # noqa
+            ctx.violation("C10/%s/raises-%s" % (via, type(e).__name__), repr(e), wit)
+            continue
+        ctx.feature("removal-after-cutout.other-network-rechecked." + role)
+        ctx.feature("removal-after-cutout.via-" + via)
+        if dangling(after_act):
+            ctx.violation("C10/%s/dangling-reference/%s" % (via, dangling(after_act)[0][0]), repr(dangling(after_act)[:3]), wit)
+        dfs = S.diff(_sk(other_before), _sk(snap(other)), S.real_ok_bits)
+        if dfs:
+            ctx.violation("C10/later-operation-changed-the-other-network/%s%s" % (role, S.generalise(dfs[0][0])),
+                          "%s changed at %s: %s -> %s although lanelet %d was removed from the other network only" % (
+                              role, dfs[0][0], dfs[0][1], dfs[0][2], victim), wit)
